@@ -87,6 +87,78 @@ def _node_calls(n, name):
     return False
 
 
+def _deferred_recompute(ctx, fi, an):
+    """The returns reachable from CFG node `an` without a recomputation are all guarded by one parameter P of fi being
+    true; every call chain that binds P to something other than False ends in a function that, after the call, reaches
+    on every normal path a method of DirectoryRecord that recomputes from index 0.  None if so, else what is missing
+    ('' when this is not the deferral shape at all)."""
+    from .. import expand as ex
+    g = ctx.cfg(fi)
+    params = [p.lstrip('*') for p in fi.params]
+
+    def transfer(n, st, lab):
+        if n is not an and _node_calls(n, '_recalculate_extents_and_offsets'):
+            return False
+        return st
+    IN = g.forward(True, transfer, lambda a, b: a or b, start=an)
+    rets = [n for n in g.nodes if n.kind == 'stmt' and isinstance(n.stmt, ast.Return) and IN.get(n.id)]
+    if not rets:
+        return ''
+    flag = None
+    for r in rets:
+        names = set()
+        for test, pol, _at in ex.conditions(ctx, fi, r.stmt, True):
+            for t, p in ex.conjuncts(test, pol):
+                if p and isinstance(t, ast.Name) and t.id in params:
+                    names.add(t.id)
+        if not names:
+            return ''
+        flag = names if flag is None else (flag & names)
+    if not flag:
+        return ''
+    P = sorted(flag)[0]
+    # finishers: methods of the class that call the recomputation with start index 0 on every path
+    finishers = set()
+    for m in fi.cls.methods.values():
+        if m is fi:
+            continue
+        mg = ctx.cfg(m)
+        calls0 = [n for n in mg.nodes for e in cfgmod.node_exprs(n) for c in ast.walk(e)
+                  if isinstance(c, ast.Call) and isinstance(c.func, ast.Attribute) and c.func.attr == '_recalculate_extents_and_offsets' and
+                  c.args and isinstance(c.args[0], ast.Constant) and c.args[0].value == 0]
+        if calls0 and _must_follow(ctx, m, mg.entry, lambda n: _node_calls(n, '_recalculate_extents_and_offsets')):
+            finishers.add(m.name)
+    if not finishers:
+        return 'no method recomputes the whole directory (index 0) for the callers that set `%s`' % P
+    seen = set()
+    work = [(fi, P)]
+    nsites = 0
+    while work:
+        f, p = work.pop()
+        if (f.qual, p) in seen:
+            continue
+        seen.add((f.qual, p))
+        fparams = [x.lstrip('*') for x in f.params]
+        idx = fparams.index(p) - (1 if f.cls is not None and fparams and fparams[0] == 'self' else 0)
+        for caller, c in ctx.callers().get(f.qual, []):
+            a = c.node.args[idx] if 0 <= idx < len(c.node.args) else None
+            for kw in c.node.keywords:
+                if kw.arg == p:
+                    a = kw.value
+            if a is None or (isinstance(a, ast.Constant) and a.value is False):
+                continue
+            if isinstance(a, ast.Name) and a.id in [x.lstrip('*') for x in caller.params]:
+                work.append((caller, a.id))
+                continue
+            nsites += 1
+            cg = ctx.cfg(caller)
+            sn = cg.node_of(ctx.enclosing_stmt(caller, c.node))
+            if sn is None or not _must_follow(ctx, caller, sn, lambda n: any(_node_calls(n, fn) for fn in finishers)):
+                return '%s asks for the recomputation to be left out (line %d) but does not reach %s() on every path afterwards' % (
+                    caller.qual, c.node.lineno, '/'.join(sorted(finishers)))
+    return None
+
+
 @rule('SA-PAIR.offset_cache')
 @props('C03', 'C02')
 def offset_cache(ctx):
@@ -101,9 +173,17 @@ def offset_cache(ctx):
         for w in ws:
             an = g.node_of(w.stmt)
             ok = an is not None and _must_follow(ctx, fi, an, lambda n: _node_calls(n, '_recalculate_extents_and_offsets'))
-            obs.append(Ob('SA-PAIR.offset_cache', '%s|%s' % (fi.qual, norm(w.stmt)[:70]), ok, ctx.loc(fi, w.node),
-                          '' if ok else 'children changed but a path returns without recomputing extents_to_here/offset_to_here/index_in_parent: '
-                          'in-place modification and removal then address the wrong record'))
+            why = '' if ok else 'children changed but a path returns without recomputing extents_to_here/offset_to_here/index_in_parent: ' \
+                'in-place modification and removal then address the wrong record'
+            if not ok and an is not None:
+                # deferred recomputation: the skipping returns are taken only on request of a parameter, and whoever
+                # requests it calls a method that recomputes the whole directory afterwards
+                missing = _deferred_recompute(ctx, fi, an)
+                if missing is None:
+                    ok, why = True, 'recomputation deferred on request of the caller, which recomputes the whole directory afterwards'
+                elif missing:
+                    why += ' (%s)' % missing
+            obs.append(Ob('SA-PAIR.offset_cache', '%s|%s' % (fi.qual, norm(w.stmt)[:70]), ok, ctx.loc(fi, w.node), why))
     if not obs:
         raise AnalysisError('anchor-vanished: mutations of DirectoryRecord.children not found')
     # the recompute itself must assign all three cached fields for every child from index on
